@@ -34,6 +34,7 @@ type Field struct {
 	Name   string
 	TagKey string // explicit key in the serix tag ("" = derived from the name)
 	Opt    bool
+	Omit   bool // serix tag "omitempty" (never together with Opt)
 	S      *Schema
 }
 
@@ -95,6 +96,9 @@ func (s *Schema) build() reflect.Type {
 			tag := f.TagKey
 			if f.Opt {
 				tag += ",optional"
+			}
+			if f.Omit {
+				tag += ",omitempty"
 			}
 			fs[i] = reflect.StructField{Name: f.Name, Type: f.S.build(), Tag: reflect.StructTag(`serix:"` + tag + `"`)}
 		}
@@ -221,6 +225,9 @@ func (s *Schema) coq() string {
 			m := "FReq"
 			if f.Opt {
 				m = "FOptional"
+			}
+			if f.Omit {
+				m = "FOmit"
 			}
 			return "(" + coqStr(f.Key()) + ", " + m + ", " + f.S.coq() + ")"
 		})
